@@ -143,19 +143,42 @@ Print Assumptions C03_species_dimension_complete.
    above are about. *)
 Theorem C03_files_read_as_merged :
   forall fixed sc ly worder rorder1 morder rorder ts,
-  layout_ok sc ly ->
+  layout_ok sc ly -> incl rorder1 worder ->
+  incl rorder (worder ++ match ly with Mapped _ => morder | _ => [] end) ->
   run_case fixed sc ly worder rorder1 morder rorder ts = run_case_merged fixed sc ly worder rorder1 morder rorder ts.
-Proof. exact run_case_files_eq_merged. Qed.
+Proof. exact run_case_eq_merged. Qed.
 Print Assumptions C03_files_read_as_merged.
 
-(* Layout independence on separate files.  (i) Base + associated file written by one CREATE = single
-   file, for every schema, split, trajectory list and order, outcome for outcome (errors included). *)
+(* Every file has its own (unlimited) trajectory dimension, as long as the largest index written to any of ITS
+   variables + 1; reading beyond it is an IndexError ([run_case] models this, [run_case_unbounded] does not).
+   Because _write_data writes the trajectory coordinate of the file of every field set it handles, reading
+   index i < number of trajectories never runs past the dimension of any file — also of a file in which every
+   field was unset at i, e.g. the trailing records of an associated file that holds only optional fields. *)
+Theorem C03_reads_stay_within_every_file :
+  forall fixed sc ly worder rorder1 morder rorder ts,
+  incl rorder1 worder ->
+  incl rorder (worder ++ match ly with Mapped _ => morder | _ => [] end) ->
+  run_case fixed sc ly worder rorder1 morder rorder ts = run_case_unbounded fixed sc ly worder rorder1 morder rorder ts.
+Proof. exact reads_stay_within_every_file. Qed.
+Print Assumptions C03_reads_stay_within_every_file.
+
+(* Layout independence on separate files.  (i) Base + one or several associated files written by one CREATE =
+   single file, for every schema, split, trajectory list and order, outcome for outcome (errors included). *)
 Theorem C03_assoc_reads_as_single_file :
   forall fixed sc a worder rorder1 morder rorder ts,
   layout_ok sc (Assoc a) ->
-  run_case fixed sc (Assoc a) worder rorder1 morder rorder ts = run_case fixed sc Single worder rorder1 morder rorder ts.
+  run_case_unbounded fixed sc (Assoc a) worder rorder1 morder rorder ts
+  = run_case_unbounded fixed sc Single worder rorder1 morder rorder ts.
 Proof. exact assoc_reads_as_single. Qed.
 Print Assumptions C03_assoc_reads_as_single_file.
+
+Theorem C03_many_assoc_files_read_as_single_file :
+  forall fixed sc parts worder rorder1 morder rorder ts,
+  layout_ok sc (AssocMany parts) ->
+  run_case_unbounded fixed sc (AssocMany parts) worder rorder1 morder rorder ts
+  = run_case_unbounded fixed sc Single worder rorder1 morder rorder ts.
+Proof. exact assoc_many_reads_as_single. Qed.
+Print Assumptions C03_many_assoc_files_read_as_single_file.
 
 (* (ii) A store whose field sets [a] are produced afterwards by create_associated — a second file whose
    species dimension (that of the mapped results) in general differs from the base file's — reads back,
